@@ -1,6 +1,6 @@
 (* C01 - KV store behaves as an ordered map for every operation history.  Statements only. *)
 Require Import List ZArith Lia. Import ListNotations.
-Require Import IW.KV.Node IW.KV.Spec IW.KV.Node_proofs IW.KV.Keys IW.KV.Inst IW.KV.Keys_proofs IW.KV.KeysCompound_proofs IW.KV.Skip IW.KV.Skip_proofs IW.Gen.Facts.
+Require Import IW.KV.Node IW.KV.Spec IW.KV.Node_proofs IW.KV.Keys IW.KV.Inst IW.KV.Keys_proofs IW.KV.KeysCompound_proofs IW.KV.KeysReal_proofs IW.KV.Skip IW.KV.Skip_proofs IW.Gen.Facts.
 
 (* For EVERY history of put (plain, no-overwrite, with an update function standing for increment / put-handler),
    get and delete, every choice of skip-list levels (they do not enter this layer) and every comparator that is a
@@ -73,6 +73,24 @@ Print Assumptions C01_kv_refines_map_compound.
 Theorem C01_compound_keys_eq_iff_identical : forall a b : ckey, ckey_cmp a b = Eq <-> proj1_sig a = proj1_sig b.
 Proof. exact compound_cmp_eq_iff. Qed.
 Print Assumptions C01_compound_keys_eq_iff_identical.
+
+(* ... and for real-number key databases (IWDB_REALNUM_KEYS): iwafcmp - signed integer part, fraction, then the bytes as a
+   tie-break - is a total preorder on arbitrary texts whose equivalence is identity of the texts (the model's fraction is an
+   exact rational; the C code's long-double sum is likewise a function of the key alone) *)
+Theorem C01_kv_refines_map_realkeys :
+  forall (upd : value -> value -> option value) (ops : list (op key value)) (st : nat * chain key value),
+    NodeInv key value (cmp_of realmode) NIDX (snd st) ->
+    let '(st', outs) := run key value (cmp_of realmode) NIDX NPIVOT upd st ops in
+    let '(l', souts) := spec_run key value (cmp_of realmode) upd (flat key value (snd st)) ops in
+    flat key value (snd st') = l' /\ outs = souts /\ NodeInv key value (cmp_of realmode) NIDX (snd st').
+Proof.
+  intros upd. apply kv_refines_map.
+  - exact real_cmp_lt_eq.
+  - exact real_cmp_antisym.
+  - exact real_cmp_trans.
+  - unfold NPIVOT, NIDX, SPLIT_PIVOT, KVBLK_IDXNUM. vm_compute. lia.
+Qed.
+Print Assumptions C01_kv_refines_map_realkeys.
 
 (* "every random skip-list level choice": the multi-level search of _lx_find_bounds / _lx_roll_forward (KV/Skip.v: start
    at the head on any level, roll forward while the next node on that level starts at or before the key, descend) ends
